@@ -195,6 +195,48 @@ theorem raw_signature_names_would_not_alias :
     isAliased (methodCollisions ["Library", "LibraryClient", "LibraryAsyncClient", "create_item"] [["parent"], ["class"]]) "class_" = true := by
   decide
 
+/-! ## A types module named like a module the service code imports: aliased -/
+
+/-- two referenced types with the same module name from different packages: the module name is in `Service.names`, hence in the
+collision set of every method (whatever it flattens), hence aliased -/
+theorem shared_module_name_aliased (own methods : List String) (refs : List Ref) (sigFields : List Path)
+    (m p₁ p₂ : String) (h₁ : (m, p₁) ∈ refs) (h₂ : (m, p₂) ∈ refs) (hne : p₁ ≠ p₂) :
+    isAliased (methodCollisions (serviceNames own methods refs) sigFields) m = true := by
+  simp only [isAliased, methodCollisions, serviceNames, collidingModules, Bool.or_eq_true, List.contains_iff_mem]
+  left
+  simp only [List.mem_append, List.mem_filterMap]
+  left; right
+  refine ⟨(m, p₁), h₁, ?_⟩
+  have hany : refs.any (fun r' => r'.1 == m && r'.2 != p₁) = true :=
+    List.any_eq_true.mpr ⟨(m, p₂), h₂, by simp [Ne.symm hne]⟩
+  simp [hany]
+
+/-- an API file `operation.proto` of a service with a long-running method: the types module `operation` and
+`google.api_core.operation` are both aliased in every method's context (likewise `operation_async`, `pagers`, `extended_operation`) -/
+theorem wrapper_module_collision_aliased (own methods : List String) (sigFields : List Path) (rest : List Ref) (pkg svcPkg : String)
+    (hpkg : pkg ≠ "google.api_core") (hsvc : pkg ≠ svcPkg) :
+    (∀ m ∈ ["operation", "operation_async"],
+      isAliased (methodCollisions (serviceNames own methods ((m, pkg) :: wrapperRefs true false false svcPkg ++ rest)) sigFields) m = true) ∧
+    isAliased (methodCollisions (serviceNames own methods (("pagers", pkg) :: wrapperRefs false false true svcPkg ++ rest)) sigFields) "pagers" = true ∧
+    isAliased (methodCollisions (serviceNames own methods (("extended_operation", pkg) :: wrapperRefs false true false svcPkg ++ rest)) sigFields)
+      "extended_operation" = true := by
+  refine ⟨?_, ?_, ?_⟩
+  · intro m hm
+    simp only [List.mem_cons, List.not_mem_nil, or_false] at hm
+    rcases hm with rfl | rfl
+    · exact shared_module_name_aliased _ _ _ _ _ pkg "google.api_core" (by simp) (by simp [wrapperRefs]) hpkg
+    · exact shared_module_name_aliased _ _ _ _ _ pkg "google.api_core" (by simp) (by simp [wrapperRefs]) hpkg
+  · exact shared_module_name_aliased _ _ _ _ _ pkg svcPkg (by simp) (by simp [wrapperRefs]) hsvc
+  · exact shared_module_name_aliased _ _ _ _ _ pkg "google.api_core" (by simp) (by simp [wrapperRefs]) hpkg
+
+example : ("acme.lib_v1.types" : String) ≠ "google.api_core" ∧ ("acme.lib_v1.types" : String) ≠ "acme.lib_v1.services.library" := by decide
+
+/-- with the wrapper types left out of the count, `operation` is used from one package only and is not aliased -/
+theorem wrapper_refs_needed :
+    isAliased (methodCollisions (serviceNames ["Library"] ["move_book"] [("operation", "acme.lib_v1.types")]) []) "operation" = false ∧
+    isAliased (methodCollisions (serviceNames ["Library"] ["move_book"]
+      (("operation", "acme.lib_v1.types") :: wrapperRefs true false false "acme.lib_v1.services.library")) []) "operation" = true := by decide
+
 /-! ## `toSnakeCase` IS the code's current `to_snake_case` (translated by harness/pyfun2lean.py, re-bridged on every run) -/
 
 section Translated
